@@ -49,6 +49,7 @@ LEVEL = {
 LEVEL["decided"] += " (R10.7) the descriptor decides 'looked up on the class' by `instance is None` only."
 LEVEL["decided"] += ' R10.3 is path-based: every path through cache_clear resets hits, misses and the store together.'
 LEVEL["decided"] += ' (R10.8) hit or miss is decided by the presence of the key, never by comparing a looked-up value with None / a constant.'
+LEVEL["decided"] += ' (R10.10) cache_info keeps nothing between queries, or what it keeps is dropped by every operation that changes a counter or the store.'
 LEVEL["decided"] += ' (R10.9) __call__ and cache_discard of every wrapper (bound wrapper included) take nothing but self, positional-only, besides *args / **kwargs: every argument pattern of the function is accepted, also a keyword named self.'
 
 
@@ -67,6 +68,10 @@ def run(ctx) -> None:
         r10_3(ctx, lc)
         c11.check_call(_Relabel(ctx, {"R11.5": "R10.6", "R11.4": "R10.6", "R11.1": "R10.6",
                                       "R11.3": "R10.6", "R11.6": "R10.6"}), lc)
+    ctx.rule("R10.10", "cache_info reports the state at the time of the query: a report kept between queries is dropped by every "
+                       "operation that changes a counter or the store (call, clear, discard), before the next suspension point or return")
+    for lc in classes.values():
+        r10_10(ctx, lc)
     r10_4(ctx)
     r10_5(ctx, classes)
     from .common import descriptor_binding
@@ -581,6 +586,50 @@ def _last_arg(call: ast.Call):
     return None
 
 
+# --------------------------------------------------------------------------- R10.10
+def r10_10(ctx, lc: LruClass, rid: str = "R10.10") -> None:
+    """cache_info reports the state at the time of the query.  If it keeps anything between queries (a memoised report in a
+    field), then every operation that changes a counter or the store drops it before anybody can ask again: between the
+    change and the next suspension point / return - or between the previous one and the change - lies a reset of the field."""
+    ci = lc.info.methods["cache_info"]
+    kept = set()
+    for n in cfg_of(ci).nodes:
+        if n.kind == "store" and not n.tag:
+            for t in n.info.get("targets", []):
+                for x in ([t] + (list(t.elts) if isinstance(t, ast.Tuple) else [])):
+                    if isinstance(x, ast.Attribute) and isinstance(x.value, ast.Name) and x.value.id == "self":
+                        kept.add(x.attr)
+    ctx.count("cache_info_kept_fields", len(kept))
+    if not kept:
+        ctx.ok(rid, ci, "cache_info keeps nothing between queries: every report is built from the counters and the store at that moment")
+        return
+    for mname, m in sorted(lc.info.methods.items()):
+        if mname in ("cache_info", "__init__"):
+            continue
+        v = ctx.inlined(m)
+        cfg = cfg_of(v)
+        main = [n for n in cfg.nodes if not n.tag]
+        for fld in sorted(kept):
+            resets = {n for n in cfg.nodes if (n.kind == "store" and any(lc.is_self_attr(t, fld) for t in n.info.get("targets", [])))
+                      or (n.kind == "del" and any(lc.is_self_attr(t, fld) for t in n.info.get("targets", [])))}
+            stops = [n for n in cfg.nodes if n.kind in ("await", "yield", "pull", "enter", "exit_cm")]
+            for mut in main:
+                if lc.counter_inc(mut) is None and not lc.cache_store(mut) and lc.cache_evict(mut) is None:
+                    continue
+                ctx.count("report_inputs_changed")
+                after = find_path(mut, lambda x: x is cfg.exit or x in stops, avoid=lambda x: x in resets,
+                                  edge_ok=lambda a, lab, b: lab not in ("e", "p"))
+                before = None
+                if after is not None:
+                    before = next((p_ for p_ in (find_path(s0, lambda x: x is mut, avoid=lambda x: x in resets,
+                                                           edge_ok=lambda a, lab, b: lab not in ("e", "p"))
+                                                 for s0 in [cfg.entry] + stops) if p_ is not None), None)
+                ctx.check(after is None or before is None, rid, m, mut,
+                          f"cache_info keeps a report in `self.{fld}` between queries; `{norm(mut.ast)[:60]}` changes what it was "
+                          "computed from, and the kept report is dropped before anybody can ask again", node=mut,
+                          witness=pretty_path(after))
+
+
 # --------------------------------------------------------------------------- R10.3
 def r10_3(ctx, lc: LruClass) -> None:
     clear = lc.info.methods["cache_clear"]
@@ -632,9 +681,21 @@ def r10_3(ctx, lc: LruClass) -> None:
                   "cache_info reports (hit counter, miss counter, maxsize, len(store)) in field order",
                   witness={k: norm(v) for k, v in info.items()}.__repr__())
     params = lc.info.methods["cache_parameters"]
-    calls = [n for n in own_nodes(params.node) if isinstance(n, ast.Call) and norm(n.func).endswith("CacheParameters")]
-    ok = len(calls) == 1 and {k.arg: norm(k.value) for k in calls[0].keywords}.get("maxsize") == norm(info.get("maxsize")) \
-        and any(k.arg == "typed" and isinstance(k.value, ast.Attribute) for k in calls[0].keywords)
+    # (the mapping may be built as ``CacheParameters(maxsize=.., typed=..)``, ``dict(..)`` or a dict display, possibly named first)
+    from .common import inline_locals
+    pcfg = cfg_of(params)
+    reported = []
+    for r in [n for n in pcfg.nodes if n.kind == "return" and not n.tag]:
+        val = r.info.get("value")
+        val = inline_locals(ctx, params, pcfg, r, val, depth=1) if val is not None else None
+        if isinstance(val, ast.Call) and norm(val.func).split(".")[-1] in ("CacheParameters", "dict") and not val.args:
+            reported.append({k.arg: k.value for k in val.keywords})
+        elif isinstance(val, ast.Dict) and all(isinstance(k, ast.Constant) for k in val.keys):
+            reported.append({k.value: v for k, v in zip(val.keys, val.values)})
+        else:
+            reported.append({})
+    ok = len(reported) == 1 and set(reported[0]) == {"maxsize", "typed"} \
+        and norm(reported[0]["maxsize"]) == norm(info.get("maxsize")) and isinstance(reported[0]["typed"], ast.Attribute)
     ctx.check(ok, "R10.3", params, "cache_parameters", "cache_parameters reports the same maxsize as cache_info and the typed flag")
 
 
